@@ -12,7 +12,9 @@ require (
 	github.com/godaddy/asherah/go/appencryption v0.7.1
 	github.com/godaddy/asherah/go/securememory v0.1.6
 	github.com/godaddy/asherah/server/go v0.0.0
+	github.com/golang/protobuf v1.5.4
 	google.golang.org/grpc v1.71.1
+	google.golang.org/protobuf v1.36.4
 )
 
 require (
@@ -35,7 +37,6 @@ require (
 	github.com/aws/aws-sdk-go-v2/service/sts v1.33.19 // indirect
 	github.com/aws/smithy-go v1.22.2 // indirect
 	github.com/go-sql-driver/mysql v1.9.2 // indirect
-	github.com/golang/protobuf v1.5.4 // indirect
 	github.com/jmespath/go-jmespath v0.4.0 // indirect
 	github.com/pkg/errors v0.9.1 // indirect
 	github.com/rcrowley/go-metrics v0.0.0-20201227073835-cf1acfcdf475 // indirect
@@ -44,7 +45,6 @@ require (
 	golang.org/x/sys v0.32.0 // indirect
 	golang.org/x/text v0.22.0 // indirect
 	google.golang.org/genproto v0.0.0-20230410155749-daa745c078e1 // indirect
-	google.golang.org/protobuf v1.36.4 // indirect
 )
 
 replace github.com/godaddy/asherah/go/appencryption => /repo/go/appencryption
